@@ -19,7 +19,8 @@ impl ohkami::openapi::Schema for AnyJson { fn schema() -> impl Into<ohkami::open
 /// the response the operation history builds
 fn build(c: &Value) -> Response {
     let mut res = Response::new(Status::from(c["status"].as_u64().unwrap() as u16));
-    for op in c["ops"].as_array().unwrap() {
+    for (op_index, op) in c["ops"].as_array().unwrap().iter().enumerate() {
+        let first_op = op_index == 0;
         let a = op.as_array().unwrap();
         let g = |i: usize| a[i].as_str().unwrap();
         match g(0) {
@@ -50,11 +51,21 @@ fn build(c: &Value) -> Response {
             "payload" => res.set_payload(leak_str(unhex(g(1))), unhex(g(2))),
             "drop" => { let _ = res.drop_content(); }
             "stream" => {
-                // an event stream as content: the response a DataStream handler returns, under the status of the case
+                // an event stream as content.  As the first operation: the response a DataStream handler returns, under the status of the case;
+                // later in a history: `Response::set_stream` on the response as it stands (a fang replacing or re-setting the content)
                 let msgs: Vec<String> = a[1].as_array().unwrap().iter().map(|m| string(unhex(m.as_str().unwrap()))).collect();
-                let status = res.status;
-                res = ohkami::IntoResponse::into_response(ohkami::sse::DataStream::<String>::new(move |mut s| async move { for m in msgs { s.send(m); } }));
-                res.status = status;
+                if first_op {
+                    let status = res.status;
+                    res = ohkami::IntoResponse::into_response(ohkami::sse::DataStream::<String>::new(move |mut s| async move { for m in msgs { s.send(m); } }));
+                    res.status = status;
+                } else {
+                    struct VecStream(std::vec::IntoIter<String>);
+                    impl ohkami::util::Stream for VecStream {
+                        type Item = String;
+                        fn poll_next(mut self: std::pin::Pin<&mut Self>, _: &mut std::task::Context<'_>) -> std::task::Poll<Option<String>> { std::task::Poll::Ready(self.0.next()) }
+                    }
+                    res.set_stream(VecStream(msgs.into_iter()));
+                }
             }
             "typed" => {
                 // a typed responder as a handler returns it: ["typed", kind, status name, payload]; it starts the response (the case's status is its status)
